@@ -35,7 +35,13 @@ def fee_sites(prog, world, sem, roles):
             if len(alts) == 1:
                 fee = world.ident(alts[0], expand_ws=False)
             if fee.op == "call" and fee.info == "std::cmp::Ord::min":
-                has_fee = find(world.norm(fee, 0, False), lambda y: roles.role(y) == ("params", "peg_recovery_fee"))
+                # the fee rate is a *factor of the cap itself* (within a few nodes of min's operands), not something the operands merely
+                # depend on through the data flow (the undelegation planner's min(target, delegated) depends on every earlier fee)
+                def near(x, d):
+                    if roles.role(x) == ("params", "peg_recovery_fee"):
+                        return True
+                    return d > 0 and x.op in ("bin", "call", "phi", "field") and any(near(y, d - 1) for y in x.args)
+                has_fee = near(world.norm(fee, 0, False), 5)
                 if has_fee:
                     gv, gbb = vis, bb
                     if fee.site is not None:
